@@ -17,8 +17,7 @@ Print Assumptions C07_source_v1_claims_data_validate.
    model's issue lists that C07_time_activation / _auth_request / _auth_response / _generic / _user count the time
    issues of.  What nkeys says of a key is an unknown function in the translation, instantiated by the model's role
    oracle; what Limits.Validate reports (CIDR, clock times, time zone) is an observation, instantiated by the model's
-   list.  (Account and operator claims, whose Validate methods are not translated, are tied by the correspondence
-   run only.) *)
+   list.  (Account and operator claims: Properties/C06_source_account.v.) *)
 Open Scope list_scope.
 Theorem C07_source_activation_validate : forall role_of now (cd : claims_data) (a : activation) (vr : list go_issue),
   SrcValidateClaims.V2.ActivationClaims_Validate (at_subject a) (at_type a) (at_issuer_account a) (cd_exp cd) (cd_nbf cd) (is_acct role_of) now vr
